@@ -82,11 +82,11 @@ ImmFollowsOperand == Alu2 \cup {"push","imul"}     \* immediate has the width of
 CMov    == {"cmove","cmovne","cmovb","cmovae","cmovg","cmovl","cmovge","cmovle","cmova","cmovbe","cmovs","cmovns"}
 ImpliedSize == ((Alu2 \cup Shifts \cup Unary \cup BitOps) \ {"lea","push","pop"}) \cup CMov   \* memory size = register size
 \* memory size fixed by the mnemonic, or by the class of the SIMD register next to it
-FixedMem == [fldcw |-> 16, fnstcw |-> 16, fnstsw |-> 16, movd |-> 32, movss |-> 32, addss |-> 32, ucomiss |-> 32, cvtsi2sd |-> 32,
+FixedMem == [movq |-> 64, fldcw |-> 16, fnstcw |-> 16, fnstsw |-> 16, movd |-> 32, movss |-> 32, addss |-> 32, ucomiss |-> 32, cvtsi2sd |-> 32,
              sete |-> 8, setne |-> 8, setb |-> 8, setg |-> 8, pinsrw |-> 16, jmp |-> 32, call |-> 32,
              movaps |-> 128, movups |-> 128, addps |-> 128, mulps |-> 128, xorps |-> 128, andps |-> 128, sqrtps |-> 128,
              movdqa |-> 128, movdqu |-> 128, pshufd |-> 128, shufps |-> 128]
-Packed == {"movq","paddb","paddd","paddq","pxor","pand","por","psubb","pcmpeqb","punpcklbw"}
+Packed == {"paddb","paddd","paddq","pxor","pand","por","psubb","pcmpeqb","punpcklbw"}
 \* ---------------------------------------------------------------- sizes
 RegSizes(ops) == {GprSize(ops[j].c) : j \in {j \in 1..Len(ops) : ops[j].k = "reg"}} \ {0}
 MemSizes(ops) == {ops[j].sz : j \in {j \in 1..Len(ops) : ops[j].k = "mem"}} \ {0}
